@@ -192,9 +192,11 @@ impl<'a> Gen<'a> {
             if let Some(s) = ms.iter().find(|m| m.reply.as_ref().unwrap().on == On::Success) {
                 let r = s.reply.as_ref().unwrap();
                 want_inst = matches!(r.data, DataMode::Instantiate | DataMode::InstantiateOpt) && self.rng.chance(4, 5);
-                if !want_inst {
-                    callee_data = Some(self.callee_data(r.data, r.data_ty));
+                // now and then an instantiation is wired to a method of another mode
+                if !want_inst && self.rng.chance(1, 12) {
+                    want_inst = true;
                 }
+                callee_data = Some(self.callee_data(r.data, r.data_ty));
             }
             let rs = self.small_script(from, depth);
             let (given, _) = self.payload(sig, &rs);
@@ -224,10 +226,12 @@ impl<'a> Gen<'a> {
                 (t.names[name], p)
             } else {
                 // ids no handler owns: far away, at the edge of the table, at the edge of u64
-                let id = match self.rng.below(4) {
+                let id = match self.rng.below(5) {
                     0 => u64::MAX,
                     1 => names.len() as u64,
                     2 => u64::MAX - names.len() as u64,
+                    // a known id in the lower half, something else above
+                    3 => ((1 + self.rng.below(9)) << 32) | self.rng.below(names.len() as u64),
                     _ => 1000 + self.rng.below(5),
                 };
                 (id, Binary::from(b"{}".to_vec()))
@@ -277,7 +281,7 @@ impl<'a> Gen<'a> {
                 label: Some(format!("sub{}", self.nonce())),
                 admin: None,
                 funds: None,
-                salt: None,
+                salt: if self.rng.chance(1, 3) { Some(Binary::from(self.nonce().to_be_bytes().to_vec())) } else { None },
             }
         } else {
             let typed = self.rng.chance(2, 3);
@@ -403,6 +407,11 @@ impl Profile for F3 {
                 funds: vec![],
                 intent: Some(Intent { hid: "execute::go".into(), args, cid: String::new() }),
             });
+            // the very same operation once more (same block, same bytes)
+            if g.rng.chance(1, 8) {
+                let again = ops.last().cloned().unwrap();
+                ops.push(again);
+            }
         }
         let _ = g.prop;
         ops
@@ -446,6 +455,10 @@ impl Profile for F3 {
                         };
                         out.push((key, Fault::ReplyMeta { gas, events, responses }));
                     }
+                }
+                // f16: a reply delivered outside a transaction
+                if rng.chance(1, 12) {
+                    out.push((key, Fault::EnvNoTx));
                 }
                 // f5 / f6: reply data absent or damaged
                 let p = if self.prop == "C09" { 2 } else { 8 };
